@@ -324,7 +324,7 @@ pub fn check_failure(spec: &AppSpec, k: usize, route: &RouteInfo, plan: &[(Strin
         for (t, ts) in spec.types.iter().enumerate() {
             for v in 0..ts.variants.max(1) {
                 if ctor_name(k, t, v) == failed {
-                    found = Some((ts.fallible.unwrap_or(0), Some(t)));
+                    found = Some((ts.fallible_of(v).unwrap_or(0), Some(t)));
                 }
             }
         }
